@@ -147,3 +147,64 @@ Proof.
     unfold gen_StructType_droppable, gen_StructType_intrinsically_droppable.
     rewrite (forallb_args_copy info ti_droppable), forallb_map, forallb_app'. reflexivity.
 Qed.
+
+(* ---------------------------------------------------------------- occurrence form *)
+Lemma occurs_wfb : forall s t, occurs s t -> wfb t = true -> wfb s = true.
+Proof.
+  induction 1; auto. intros W. apply IHoccurs.
+  pose proof (wfb_components _ W) as F. rewrite Forall_forall in F. auto.
+Qed.
+
+Lemma copyable_occurs : forall s t, occurs s t -> wfb t = true -> copyable t = true -> copyable s = true.
+Proof.
+  induction 1; auto. intros W C. 
+  pose proof (wfb_components _ W) as F. rewrite Forall_forall in F.
+  rewrite (copyable_step _ W) in C. apply andb_prop in C; destruct C as [_ C].
+  rewrite forallb_forall in C. auto.
+Qed.
+
+Lemma droppable_occurs : forall s t, occurs s t -> wfb t = true -> droppable t = true -> droppable s = true.
+Proof.
+  induction 1; auto. intros W C. 
+  pose proof (wfb_components _ W) as F. rewrite Forall_forall in F.
+  rewrite (droppable_step _ W) in C. apply andb_prop in C; destruct C as [_ C].
+  rewrite forallb_forall in C. auto.
+Qed.
+
+Lemma components_Forall : forall (P : ty -> Prop) t,
+  match t with
+  | TTuple els => Forall P els
+  | TOpaque _ args => Forall P (type_args args)
+  | TStruct _ args fields => Forall P (type_args args) /\ Forall P fields
+  | _ => True end -> Forall P (components t).
+Proof. destruct t; simpl; auto. intros [A B]. apply Forall_app; auto. Qed.
+
+Lemma copyable_leaves : forall t, wfb t = true ->
+  (copyable t = true <-> forall s, occurs s t -> head_copy s = true).
+Proof.
+  intros t W. split.
+  - intros C s O. pose proof (copyable_occurs _ _ O W C) as Cs.
+    rewrite (copyable_step _ (occurs_wfb _ _ O W)) in Cs. apply andb_prop in Cs. tauto.
+  - revert W. induction t using ty_ind'; intros W Hs; rewrite (copyable_step _ W);
+      (rewrite (Hs _ (occ_here _)); simpl; auto).
+    all: pose proof (wfb_components _ W) as F; rewrite Forall_forall in F.
+    all: apply forallb_forall; intros c Hc.
+    all: assert (HP : Forall (fun x => wfb x = true -> (forall s, occurs s x -> head_copy s = true) -> copyable x = true) (components _))
+           by (apply components_Forall; simpl; auto).
+    all: rewrite Forall_forall in HP; apply (HP c Hc (F c Hc)); intros s0 O; apply Hs; eapply occ_in; eauto.
+Qed.
+
+Lemma droppable_leaves : forall t, wfb t = true ->
+  (droppable t = true <-> forall s, occurs s t -> head_drop s = true).
+Proof.
+  intros t W. split.
+  - intros C s O. pose proof (droppable_occurs _ _ O W C) as Cs.
+    rewrite (droppable_step _ (occurs_wfb _ _ O W)) in Cs. apply andb_prop in Cs. tauto.
+  - revert W. induction t using ty_ind'; intros W Hs; rewrite (droppable_step _ W);
+      (rewrite (Hs _ (occ_here _)); simpl; auto).
+    all: pose proof (wfb_components _ W) as F; rewrite Forall_forall in F.
+    all: apply forallb_forall; intros c Hc.
+    all: assert (HP : Forall (fun x => wfb x = true -> (forall s, occurs s x -> head_drop s = true) -> droppable x = true) (components _))
+           by (apply components_Forall; simpl; auto).
+    all: rewrite Forall_forall in HP; apply (HP c Hc (F c Hc)); intros s0 O; apply Hs; eapply occ_in; eauto.
+Qed.
